@@ -463,7 +463,7 @@ def replay(path):
         print("not reproduced")
         return 0
     if info["kind"] == "sequence":
-        ps = {p.id: p for p in CP.all_fixed()}
+        ps = {p.id: p for p in CP.catalogue()}
         p = ps[info["program"]]
         got = float_sequence(p, info["order"], r["inputs"], info["k"])
         print(got)
@@ -471,7 +471,7 @@ def replay(path):
         print("REPRODUCED" if bad else "not reproduced")
         return 1 if bad else 0
     if info["kind"] == "sensor":
-        ps = {p.id: p for p in CP.all_fixed()}
+        ps = {p.id: p for p in CP.catalogue()}
         p = ps[info["program"]]
         try:
             got = pyh.gate_guard(lambda: float_sensor(p, info["sensor"], r["inputs"], info["k"]))
